@@ -72,4 +72,998 @@ theorem nodup_codes_ne {ss : List Stream} (h : (ss.map (·.code)).Nodup) {j k : 
   have hlt : j < (ss.map (·.code)).length := (List.getElem?_eq_some_iff.mp h1).1
   exact hne ((List.getElem?_inj hlt h).mp (h1.trans h2.symm))
 
+
+theorem map_code_set (ss : List Stream) (k : Nat) (st st' : Stream) (hk : ss[k]? = some st) (hc : st'.code = st.code) :
+    (ss.set k st').map (·.code) = ss.map (·.code) := by
+  rw [List.map_set]
+  apply List.ext_getElem?
+  intro i
+  rw [List.getElem?_set]
+  split
+  · rename_i h; subst h
+    split
+    · simp [hk, hc]
+    · rename_i hlt; simp at hlt; simp [List.getElem?_eq_none hlt]
+  · rfl
+
+theorem wireOf_single_same (c : Nat) (p : Bytes') : wireOf c [(c, p)] = [p] := by simp [wireOf]
+theorem wireOf_single_ne {c c' : Nat} (p : Bytes') (h : c' ≠ c) : wireOf c [(c', p)] = [] := by
+  simp [wireOf, h]
+
+theorem invC_send {W : Nat} {wake : List Stream → List Stream} {s s' : SysC} (k : Nat)
+    (hmp : 0 < s.maxPayload ∧ s.maxPayload ≤ channelMaxPacket)
+    (hi : InvC W s) (h : stepC wake s (.send k) = some s') : InvC W s' ∧ s'.maxPayload = s.maxPayload := by
+  simp only [stepC] at h
+  split at h
+  · cases h
+  · rename_i st hk
+    have hmem : st ∈ s.streams := List.mem_of_getElem? hk
+    split at h
+    · cases h
+    · rename_i hne
+      simp only [Bool.or_eq_true, not_or, Bool.not_eq_true] at hne
+      obtain ⟨hne, hnp⟩ := hne
+      split at h
+      · -- window empty: park
+        rename_i hnone
+        have hw0 : s.win = 0 := by
+          simp only [nextPacket, reserve] at hnone
+          split at hnone
+          · assumption
+          · cases hnone
+        cases h
+        refine ⟨?_, rfl⟩
+        constructor
+        · exact hi.credit
+        · exact hi.recvAcct
+        · exact hi.consts
+        · exact hi.pend
+        · exact hi.wire
+        · exact hi.ok
+        · exact hi.pkts
+        · exact hi.drained
+        · exact hi.adjPos
+        · intro _ _ _; exact hw0
+        · intro st' hst'
+          rcases mem_set_cases hst' with rfl | ⟨j, _, hj⟩
+          · exact hi.streams st hmem
+          · exact hi.streams st' (List.mem_of_getElem? hj)
+        · have := map_code_set s.streams k st { st with parked := true } hk rfl
+          simp only [this]; exact hi.codes
+      · rename_i n win' heq
+        simp only [nextPacket, reserve, minPayloadSize] at heq
+        split at heq
+        · cases heq
+        · rename_i hw
+          simp only [Option.some.injEq, Prod.mk.injEq] at heq
+          obtain ⟨hn, hwin⟩ := heq
+          cases h
+          have hlen : 0 < st.toSend.length := by
+            cases hts : st.toSend with
+            | nil => simp [hts] at hne
+            | cons a t => simp
+          have hnle : n ≤ st.toSend.length ∧ n ≤ s.win ∧ 0 < n ∧ n ≤ s.maxPayload := by
+            subst hn
+            split <;> split <;> omega
+          have htake : (st.toSend.take n).length = n := by simp [List.length_take]; omega
+          refine ⟨?_, rfl⟩
+          constructor
+          · have hsum : wireLen (s.dataWire ++ [(st.code, st.toSend.take n)]) = wireLen s.dataWire + n := by
+              rw [wireLen_append]; simp [wireLen, htake]
+            simp only [hsum]
+            have := hi.credit
+            omega
+          · exact hi.recvAcct
+          · exact hi.consts
+          · exact hi.pend
+          · have := hi.wire; simp only; omega
+          · exact hi.ok
+          · intro q hq
+            simp only [List.mem_append, List.mem_singleton] at hq
+            rcases hq with hq | rfl
+            · exact hi.pkts q hq
+            · simp only [htake]; omega
+          · exact hi.drained
+          · exact hi.adjPos
+          · -- the window was not empty, so nobody was parked
+            intro st' hst' hp
+            exfalso
+            rcases mem_set_cases hst' with rfl | ⟨j, _, hj⟩
+            · simp only at hp; rw [hnp] at hp; cases hp
+            · have := hi.wake st' (List.mem_of_getElem? hj) hp
+              omega
+          · intro st' hst'
+            rcases mem_set_cases hst' with rfl | ⟨j, hjk, hj⟩
+            · obtain ⟨h1, h2, h3⟩ := hi.streams st hmem
+              refine ⟨?_, ?_, ?_⟩
+              · simp only [List.append_assoc, List.take_append_drop]; exact h1
+              · intro hc
+                simp only at hc
+                simp only [wireOf_append, hc, wireOf_single_same, List.flatten_append, List.flatten_cons,
+                  List.flatten_nil, List.append_nil]
+                rw [← h2 hc]; simp [List.append_assoc, hc]
+              · intro hc
+                simp only at hc
+                simp only [wireOf_append, hc, wireOf_single_same, List.flatten_append, List.flatten_cons,
+                  List.flatten_nil, List.append_nil]
+                rw [← h3 hc]; simp [List.append_assoc, hc]
+            · obtain ⟨h1, h2, h3⟩ := hi.streams st' (List.mem_of_getElem? hj)
+              have hcne : st.code ≠ st'.code := fun e => nodup_codes_ne hi.codes hj hk hjk e.symm
+              refine ⟨h1, ?_, ?_⟩
+              · intro hc
+                rw [wireOf_append, wireOf_single_ne _ (by rw [← hc]; exact hcne)]
+                simpa using h2 hc
+              · intro hc
+                rw [wireOf_append, wireOf_single_ne _ (by rw [← hc]; exact hcne)]
+                simpa using h3 hc
+          · have := map_code_set s.streams k st
+              { st with toSend := st.toSend.drop n, sent := st.sent ++ st.toSend.take n } hk rfl
+            simp only [this]; exact hi.codes
+
+
+theorem wireOf_cons_same (c : Nat) (p : Bytes') (rest : List (Nat × Bytes')) :
+    wireOf c ((c, p) :: rest) = p :: wireOf c rest := by simp [wireOf]
+theorem wireOf_cons_ne {c c' : Nat} (p : Bytes') (rest : List (Nat × Bytes')) (h : c' ≠ c) :
+    wireOf c ((c', p) :: rest) = wireOf c rest := by simp [wireOf, h]
+
+theorem invC_deliverData {W : Nat} {wake : List Stream → List Stream} {s s' : SysC}
+    (hi : InvC W s) (h : stepC wake s .deliverData = some s') : InvC W s' ∧ s'.maxPayload = s.maxPayload := by
+  simp only [stepC] at h
+  split at h
+  · cases h
+  · rename_i code p rest hw
+    have hp := hi.pkts (code, p) (by simp [hw])
+    simp only at hp
+    have hcred := hi.credit
+    have hacct := hi.recvAcct
+    obtain ⟨hW, hM⟩ := hi.consts
+    obtain ⟨hp0, hp1⟩ := hi.pend
+    have hwire := hi.wire
+    simp only [hw, wireLen, List.map_cons, List.sum_cons] at hcred
+    have h1 : ¬ p.length = 0 := by omega
+    have h2 : ¬ p.length > s.rcv.maxIncoming := by rw [hM]; omega
+    have h3 : ¬ s.rcv.myWindow < p.length := by omega
+    have hstreams : ∀ (u0 u1 : Bytes'), (code = 0 → u0 = s.unread0 ++ p) → (code ≠ 0 → u0 = s.unread0) →
+        (code = 1 → u1 = s.unread1 ++ p) → (code ≠ 1 → u1 = s.unread1) →
+        ∀ st ∈ s.streams, st.sent ++ st.toSend = st.data ∧
+          (st.code = 0 → s.read0 ++ u0 ++ (wireOf 0 rest).flatten = st.sent) ∧
+          (st.code = 1 → s.read1 ++ u1 ++ (wireOf 1 rest).flatten = st.sent) := by
+      intro u0 u1 a0 b0 a1 b1 st hst
+      obtain ⟨g1, g2, g3⟩ := hi.streams st hst
+      refine ⟨g1, ?_, ?_⟩
+      · intro hc
+        rw [← g2 hc, hw]
+        by_cases hc0 : code = 0
+        · subst hc0; rw [a0 rfl, wireOf_cons_same]; simp [List.append_assoc]
+        · rw [b0 hc0, wireOf_cons_ne _ _ hc0]
+      · intro hc
+        rw [← g3 hc, hw]
+        by_cases hc1 : code = 1
+        · subst hc1; rw [a1 rfl, wireOf_cons_same]; simp [List.append_assoc]
+        · rw [b1 hc1, wireOf_cons_ne _ _ hc1]
+    by_cases hc1 : code = 1
+    · -- stderr
+      subst hc1
+      have hok : handleData s.rcv 1 p.length p.length =
+          .ok ({ s.rcv with myWindow := s.rcv.myWindow - p.length, extPending := s.rcv.extPending + p.length }, 0) := by
+        unfold handleData; simp [h1, h2, h3]
+      rw [hok] at h
+      cases h
+      refine ⟨?_, rfl⟩
+      constructor
+      · simp only [wireLen, if_true]; omega
+      · simp only; omega
+      · exact ⟨hW, hM⟩
+      · simp only [List.length_append, if_true]; constructor <;> simp <;> omega
+      · simpa using hwire
+      · exact hi.ok
+      · intro q hq; exact hi.pkts q (by simp [hw, hq])
+      · intro _ h0; simp only at h0; omega
+      · simpa using hi.adjPos
+      · exact hi.wake
+      · simpa using hstreams s.unread0 (s.unread1 ++ p) (by simp) (by simp) (by simp) (by simp)
+      · exact hi.codes
+    · by_cases hc0 : code = 0
+      · subst hc0
+        have hok : handleData s.rcv 0 p.length p.length =
+            .ok ({ s.rcv with myWindow := s.rcv.myWindow - p.length, pending := s.rcv.pending + p.length }, 0) := by
+          unfold handleData; simp [h1, h2, h3]
+        rw [hok] at h
+        cases h
+        refine ⟨?_, rfl⟩
+        constructor
+        · simp only [wireLen, if_true]; omega
+        · simp only; omega
+        · exact ⟨hW, hM⟩
+        · simp only [List.length_append]; constructor <;> simp <;> omega
+        · simpa using hwire
+        · exact hi.ok
+        · intro q hq; exact hi.pkts q (by simp [hw, hq])
+        · intro h0 _; simp only at h0; omega
+        · simpa using hi.adjPos
+        · exact hi.wake
+        · simpa using hstreams (s.unread0 ++ p) s.unread1 (by simp) (by simp) (by simp) (by simp)
+        · exact hi.codes
+      · -- other extended data: discarded, credited at once
+        have hpos : code > 0 := by omega
+        by_cases hthr : (s.rcv.winSize - (s.rcv.myWindow - p.length) > 3 * s.rcv.maxIncoming) ∨
+            (s.rcv.myWindow - p.length < s.rcv.winSize / 2)
+        · have hb : (decide (s.rcv.winSize - (s.rcv.myWindow - p.length) > 3 * s.rcv.maxIncoming) ||
+              decide (s.rcv.myWindow - p.length < s.rcv.winSize / 2)) = true := by simpa using hthr
+          have hok : handleData s.rcv code p.length p.length =
+              .ok ({ s.rcv with myWindow := s.rcv.myWindow - p.length + (s.rcv.myConsumed + p.length), myConsumed := 0 },
+                   s.rcv.myConsumed + p.length) := by
+            unfold handleData adjustWindow; simp [h1, h2, h3, hc1, hpos, hb]
+          rw [hok] at h
+          have hapos : ¬ (s.rcv.myConsumed + p.length = 0) := by omega
+          cases h
+          refine ⟨?_, rfl⟩
+          constructor
+          · simp only [wireLen, hapos, if_false, List.sum_append, List.sum_cons, List.sum_nil]; omega
+          · simp only; omega
+          · exact ⟨hW, hM⟩
+          · simp only [hc0, hc1, if_false]; exact ⟨hp0, hp1⟩
+          · simp only [hapos, if_false, List.sum_append, List.sum_cons, List.sum_nil]; omega
+          · exact hi.ok
+          · intro q hq; exact hi.pkts q (by simp [hw, hq])
+          · intro _ _; left; rfl
+          · intro x hx
+            simp only [hapos, if_false, List.mem_append, List.mem_singleton] at hx
+            rcases hx with hx | rfl
+            · exact hi.adjPos x hx
+            · omega
+          · exact hi.wake
+          · simpa [hc0, hc1] using hstreams s.unread0 s.unread1 (by simp [hc0]) (by simp) (by simp [hc1]) (by simp)
+          · exact hi.codes
+        · have hb : (decide (s.rcv.winSize - (s.rcv.myWindow - p.length) > 3 * s.rcv.maxIncoming) ||
+              decide (s.rcv.myWindow - p.length < s.rcv.winSize / 2)) = false := by simpa using hthr
+          have hok : handleData s.rcv code p.length p.length =
+              .ok ({ s.rcv with myWindow := s.rcv.myWindow - p.length, myConsumed := s.rcv.myConsumed + p.length }, 0) := by
+            unfold handleData adjustWindow; simp [h1, h2, h3, hc1, hpos, hb]
+          rw [hok] at h
+          cases h
+          refine ⟨?_, rfl⟩
+          constructor
+          · simp only [wireLen, if_true]; omega
+          · simp only; omega
+          · exact ⟨hW, hM⟩
+          · simp only [hc0, hc1, if_false]; exact ⟨hp0, hp1⟩
+          · simpa using hwire
+          · exact hi.ok
+          · intro q hq; exact hi.pkts q (by simp [hw, hq])
+          · intro _ _; right; exact hthr
+          · simpa using hi.adjPos
+          · exact hi.wake
+          · simpa [hc0, hc1] using hstreams s.unread0 s.unread1 (by simp [hc0]) (by simp) (by simp [hc1]) (by simp)
+          · exact hi.codes
+
+
+theorem invC_deliverAdj {W : Nat} {s s' : SysC} (hW32 : W < 4294967296)
+    (hi : InvC W s) (h : stepC unparkAll s .deliverAdj = some s') :
+    InvC W s' ∧ s'.maxPayload = s.maxPayload ∧ (∀ st ∈ s'.streams, st.parked = false) ∧ 0 < s'.win := by
+  simp only [stepC] at h
+  split at h
+  · cases h
+  · rename_i a rest hw
+    have hcred := hi.credit
+    have hacct := hi.recvAcct
+    have hapos := hi.adjPos a (by simp [hw])
+    simp only [hw, List.sum_cons] at hcred
+    have hno : addWin s.win a = some (s.win + a) := by
+      unfold addWin
+      have h0 : ¬ a = 0 := by omega
+      have : s.win + a < 4294967296 := by omega
+      rw [Nat.mod_eq_of_lt this]
+      simp [h0]
+    rw [hno] at h
+    have h0 : ¬ a = 0 := by omega
+    simp only [h0, if_false] at h
+    cases h
+    refine ⟨?_, rfl, ?_, by simp only; omega⟩
+    · constructor
+      · simp only; omega
+      · exact hacct
+      · exact hi.consts
+      · exact hi.pend
+      · have := hi.wire; simp only [hw, List.sum_cons] at this ⊢; omega
+      · exact hi.ok
+      · exact hi.pkts
+      · exact hi.drained
+      · intro x hx; exact hi.adjPos x (by simp [hw, hx])
+      · intro st hst hp
+        simp only [unparkAll, List.mem_map] at hst
+        obtain ⟨st0, _, rfl⟩ := hst
+        simp at hp
+      · intro st hst
+        simp only [unparkAll, List.mem_map] at hst
+        obtain ⟨st0, hst0, rfl⟩ := hst
+        exact hi.streams st0 hst0
+      · simp only [unparkAll, List.map_map, Function.comp_def]; exact hi.codes
+    · intro st hst
+      simp only [unparkAll, List.mem_map] at hst
+      obtain ⟨st0, _, rfl⟩ := hst
+      rfl
+
+theorem invC_read {W : Nat} {wake : List Stream → List Stream} {s s' : SysC} (code n : Nat)
+    (hi : InvC W s) (h : stepC wake s (.read code n) = some s') : InvC W s' ∧ s'.maxPayload = s.maxPayload := by
+  simp only [stepC] at h
+  split at h
+  · cases h
+  · rename_i hc
+    simp only [Bool.or_eq_true, decide_eq_true_eq, not_or, Nat.not_lt] at hc
+    obtain ⟨hcode, hn0⟩ := hc
+    · obtain ⟨hW, hM⟩ := hi.consts
+      obtain ⟨hp0, hp1⟩ := hi.pend
+      have hacct := hi.recvAcct
+      have hcred := hi.credit
+      have hwire := hi.wire
+      by_cases hc1 : code = 1
+      · subst hc1
+        have hav : ¬ s.rcv.extPending = 0 := by intro h0; simp [h0] at h
+        simp only [if_true, hav, if_false] at h
+        have hk : 0 < bufRead s.rcv.extPending n ∧ bufRead s.rcv.extPending n ≤ s.rcv.extPending := by
+          unfold bufRead; split <;> omega
+        generalize hkdef : bufRead s.rcv.extPending n = k at hk
+        simp only [readExt, hkdef, adjustWindow, if_true] at h
+        have hk0 : ¬ k = 0 := by omega
+        by_cases hthr : (s.rcv.winSize - s.rcv.myWindow > 3 * s.rcv.maxIncoming) ∨ (s.rcv.myWindow < s.rcv.winSize / 2)
+        · have hb : (decide (s.rcv.winSize - s.rcv.myWindow > 3 * s.rcv.maxIncoming) || decide (s.rcv.myWindow < s.rcv.winSize / 2)) = true := by
+            simpa using hthr
+          simp only [hb, if_true, hk0, if_false] at h
+          cases h
+          have hapos : ¬ (s.rcv.myConsumed + k = 0) := by omega
+          refine ⟨?_, rfl⟩
+          constructor
+          · simp only [hapos, if_false, List.sum_append, List.sum_cons, List.sum_nil]; omega
+          · simp only; omega
+          · exact ⟨hW, hM⟩
+          · simp only [List.length_drop, if_true]; constructor <;> (try simp) <;> omega
+          · simp only [hapos, if_false, List.sum_append, List.sum_cons, List.sum_nil]; omega
+          · exact hi.ok
+          · exact hi.pkts
+          · intro _ _; left; rfl
+          · intro x hx
+            simp only [hapos, if_false, List.mem_append, List.mem_singleton] at hx
+            rcases hx with hx | rfl
+            · exact hi.adjPos x hx
+            · omega
+          · exact hi.wake
+          · intro st hst
+            obtain ⟨g1, g2, g3⟩ := hi.streams st hst
+            refine ⟨g1, by simpa using g2, ?_⟩
+            intro hc
+            rw [← g3 hc]; simp [List.append_assoc]
+          · exact hi.codes
+        · have hb : (decide (s.rcv.winSize - s.rcv.myWindow > 3 * s.rcv.maxIncoming) || decide (s.rcv.myWindow < s.rcv.winSize / 2)) = false := by
+            simpa using hthr
+          simp only [hb, Bool.false_eq_true, if_false, hk0] at h
+          cases h
+          refine ⟨?_, rfl⟩
+          constructor
+          · simp only [if_true]; omega
+          · simp only; omega
+          · exact ⟨hW, hM⟩
+          · simp only [List.length_drop, if_true]; constructor <;> (try simp) <;> omega
+          · simp only [if_true]; omega
+          · exact hi.ok
+          · exact hi.pkts
+          · intro _ _; right; exact hthr
+          · simpa using hi.adjPos
+          · exact hi.wake
+          · intro st hst
+            obtain ⟨g1, g2, g3⟩ := hi.streams st hst
+            refine ⟨g1, by simpa using g2, ?_⟩
+            intro hc
+            rw [← g3 hc]; simp [List.append_assoc]
+          · exact hi.codes
+      · have hc0 : code = 0 := by omega
+        subst hc0
+        have hav : ¬ s.rcv.pending = 0 := by intro h0; simp [h0] at h
+        simp only [Nat.zero_ne_one, if_false, hav] at h
+        have hk : 0 < bufRead s.rcv.pending n ∧ bufRead s.rcv.pending n ≤ s.rcv.pending := by
+          unfold bufRead; split <;> omega
+        generalize hkdef : bufRead s.rcv.pending n = k at hk
+        simp only [readExt, hkdef, adjustWindow, Nat.zero_ne_one, if_false] at h
+        have hk0 : ¬ k = 0 := by omega
+        by_cases hthr : (s.rcv.winSize - s.rcv.myWindow > 3 * s.rcv.maxIncoming) ∨ (s.rcv.myWindow < s.rcv.winSize / 2)
+        · have hb : (decide (s.rcv.winSize - s.rcv.myWindow > 3 * s.rcv.maxIncoming) || decide (s.rcv.myWindow < s.rcv.winSize / 2)) = true := by
+            simpa using hthr
+          simp only [hb, if_true, hk0, if_false] at h
+          cases h
+          have hapos : ¬ (s.rcv.myConsumed + k = 0) := by omega
+          refine ⟨?_, rfl⟩
+          constructor
+          · simp only [hapos, if_false, List.sum_append, List.sum_cons, List.sum_nil]; omega
+          · simp only; omega
+          · exact ⟨hW, hM⟩
+          · simp only [List.length_drop, if_true]; constructor <;> (try simp) <;> omega
+          · simp only [hapos, if_false, List.sum_append, List.sum_cons, List.sum_nil]; omega
+          · exact hi.ok
+          · exact hi.pkts
+          · intro _ _; left; rfl
+          · intro x hx
+            simp only [hapos, if_false, List.mem_append, List.mem_singleton] at hx
+            rcases hx with hx | rfl
+            · exact hi.adjPos x hx
+            · omega
+          · exact hi.wake
+          · intro st hst
+            obtain ⟨g1, g2, g3⟩ := hi.streams st hst
+            refine ⟨g1, ?_, by simpa using g3⟩
+            intro hc
+            rw [← g2 hc]; simp [List.append_assoc]
+          · exact hi.codes
+        · have hb : (decide (s.rcv.winSize - s.rcv.myWindow > 3 * s.rcv.maxIncoming) || decide (s.rcv.myWindow < s.rcv.winSize / 2)) = false := by
+            simpa using hthr
+          simp only [hb, Bool.false_eq_true, if_false, hk0] at h
+          cases h
+          refine ⟨?_, rfl⟩
+          constructor
+          · simp only [if_true]; omega
+          · simp only; omega
+          · exact ⟨hW, hM⟩
+          · simp only [List.length_drop, if_true]; constructor <;> (try simp) <;> omega
+          · simp only [if_true]; omega
+          · exact hi.ok
+          · exact hi.pkts
+          · intro _ _; right; exact hthr
+          · simpa using hi.adjPos
+          · exact hi.wake
+          · intro st hst
+            obtain ⟨g1, g2, g3⟩ := hi.streams st hst
+            refine ⟨g1, ?_, by simpa using g3⟩
+            intro hc
+            rw [← g2 hc]; simp [List.append_assoc]
+          · exact hi.codes
+
+
+theorem invC_step {W : Nat} (hW32 : W < 4294967296) {s s' : SysC} (a : ActC)
+    (hmp : 0 < s.maxPayload ∧ s.maxPayload ≤ channelMaxPacket)
+    (hi : InvC W s) (h : stepC unparkAll s a = some s') : InvC W s' ∧ s'.maxPayload = s.maxPayload := by
+  cases a with
+  | send k => exact invC_send k hmp hi h
+  | deliverData => exact invC_deliverData hi h
+  | read c n => exact invC_read c n hi h
+  | deliverAdj => exact ⟨(invC_deliverAdj hW32 hi h).1, (invC_deliverAdj hW32 hi h).2.1⟩
+
+/-- hypotheses under which the theorems are stated: the window fits a uint32, the peer's max packet is what this
+    implementation advertises, one writer per stream -/
+structure Setup (W mp : Nat) (writes : List (Nat × Bytes')) : Prop where
+  w2 : 2 ≤ W
+  w32 : W < 4294967296
+  mp : 0 < mp ∧ mp ≤ channelMaxPacket
+  codes : (writes.map (·.1)).Nodup
+
+theorem invC_reachable {W mp : Nat} {writes : List (Nat × Bytes')} (hs : Setup W mp writes) {s : SysC}
+    (h : ReachableC unparkAll (SysC.init W mp writes) s) : InvC W s ∧ s.maxPayload = mp := by
+  induction h with
+  | init => exact ⟨invC_init W mp writes hs.codes, rfl⟩
+  | step a _ hst ih =>
+    obtain ⟨hi, hm⟩ := ih
+    obtain ⟨hi', hm'⟩ := invC_step hs.w32 a (by rw [hm]; exact hs.mp) hi hst
+    exact ⟨hi', hm'.trans hm⟩
+
+
+theorem nextPacket_spec {win mp len n w' : Nat} (h : nextPacket win mp len = some (n, w')) (hlen : 0 < len)
+    (hmp : 0 < mp) : n ≤ len ∧ n ≤ win ∧ 0 < n ∧ n ≤ mp ∧ w' = win - n := by
+  simp only [nextPacket, reserve, minPayloadSize] at h
+  split at h
+  · cases h
+  · simp only [Option.some.injEq, Prod.mk.injEq] at h
+    obtain ⟨hn, hw⟩ := h
+    subst hn
+    refine ⟨?_, ?_, ?_, ?_, hw.symm⟩ <;> (split <;> split <;> omega)
+
+variable {W mp : Nat} {writes : List (Nat × Bytes')}
+
+/-- credit conservation with several streams on one window -/
+theorem credit_conservation_multi (hs : Setup W mp writes) {s : SysC}
+    (h : ReachableC unparkAll (SysC.init W mp writes) s) :
+    s.win + wireLen s.dataWire + s.adjWire.sum = s.rcv.myWindow ∧
+    s.rcv.myWindow + s.rcv.myConsumed + s.unread0.length + s.unread1.length = W := by
+  have hi := (invC_reachable hs h).1
+  refine ⟨hi.credit, ?_⟩
+  rw [← hi.pend.1, ← hi.pend.2]; exact hi.recvAcct
+
+/-- whichever writer sends: the packet fits the credit granted so far minus the credit used by ALL streams, and the
+    peer's max packet -/
+theorem never_exceeds_window_multi (hs : Setup W mp writes) {s s' : SysC} (k : Nat)
+    (h : ReachableC unparkAll (SysC.init W mp writes) s) (hst : stepC unparkAll s (.send k) = some s')
+    (hsent : s'.used ≠ s.used) :
+    ∃ c p, s'.dataWire = s.dataWire ++ [(c, p)] ∧ 0 < p.length ∧ p.length ≤ s.granted - s.used ∧ p.length ≤ mp ∧
+      s'.used = s.used + p.length ∧ s'.used ≤ s'.granted := by
+  obtain ⟨hi, hm⟩ := invC_reachable hs h
+  have hi' := (invC_send k (by rw [hm]; exact hs.mp) hi hst).1
+  simp only [stepC] at hst
+  split at hst
+  · cases hst
+  · rename_i st hk
+    split at hst
+    · cases hst
+    · rename_i hne
+      simp only [Bool.or_eq_true, not_or, Bool.not_eq_true] at hne
+      split at hst
+      · cases hst; exact absurd rfl hsent
+      · rename_i n win' heq
+        have hlen : 0 < st.toSend.length := by
+          cases hts : st.toSend with
+          | nil => simp [hts] at hne
+          | cons a t => simp
+        obtain ⟨hn1, hn2, hn3, hn4, hn5⟩ := nextPacket_spec heq hlen (by rw [hm]; exact hs.mp.1)
+        · have hnle : n ≤ st.toSend.length ∧ n ≤ s.win ∧ 0 < n ∧ n ≤ s.maxPayload := ⟨hn1, hn2, hn3, hn4⟩
+          have htake : (st.toSend.take n).length = n := by simp [List.length_take]; omega
+          have hw := hi.wire
+          have hw' := hi'.wire
+          cases hst
+          refine ⟨st.code, st.toSend.take n, rfl, ?_, ?_, ?_, ?_, ?_⟩
+          · omega
+          · rw [htake]; omega
+          · rw [htake, ← hm]; omega
+          · rw [htake]
+          · simp only at hw' ⊢; omega
+
+theorem receiver_never_complains_multi (hs : Setup W mp writes) {s : SysC}
+    (h : ReachableC unparkAll (SysC.init W mp writes) s) :
+    s.complained = false ∧ s.overflowed = false ∧ s.rcv.myWindow ≤ W ∧ s.win ≤ W := by
+  have hi := (invC_reachable hs h).1
+  have := hi.credit
+  have := hi.recvAcct
+  exact ⟨hi.ok.1, hi.ok.2, by omega, by omega⟩
+
+/-- per stream: what was read, what is buffered, what is in flight for THIS stream and what is still to be sent
+    concatenate to what the writer was given — other streams' packets interleave on the wire without harm -/
+theorem stream_integrity_multi (hs : Setup W mp writes) {s : SysC}
+    (h : ReachableC unparkAll (SysC.init W mp writes) s) (st : Stream) (hst : st ∈ s.streams) :
+    (st.code = 0 → s.read0 ++ s.unread0 ++ (wireOf 0 s.dataWire).flatten ++ st.toSend = st.data ∧ s.read0 <+: st.data) ∧
+    (st.code = 1 → s.read1 ++ s.unread1 ++ (wireOf 1 s.dataWire).flatten ++ st.toSend = st.data ∧ s.read1 <+: st.data) := by
+  have hi := (invC_reachable hs h).1
+  obtain ⟨g1, g2, g3⟩ := hi.streams st hst
+  constructor
+  · intro hc
+    have e : s.read0 ++ s.unread0 ++ (wireOf 0 s.dataWire).flatten ++ st.toSend = st.data := by rw [g2 hc]; exact g1
+    refine ⟨e, ?_⟩
+    rw [← e]; simp only [List.append_assoc]; exact List.prefix_append _ _
+  · intro hc
+    have e : s.read1 ++ s.unread1 ++ (wireOf 1 s.dataWire).flatten ++ st.toSend = st.data := by rw [g3 hc]; exact g1
+    refine ⟨e, ?_⟩
+    rw [← e]; simp only [List.append_assoc]; exact List.prefix_append _ _
+
+/-- **no lost wake-up**: in every reachable state a writer sleeps in `Cond.Wait` only while the window is 0 -/
+theorem no_lost_wakeup (hs : Setup W mp writes) {s : SysC}
+    (h : ReachableC unparkAll (SysC.init W mp writes) s) (st : Stream) (hst : st ∈ s.streams)
+    (hp : st.parked = true) : s.win = 0 :=
+  (invC_reachable hs h).1.wake st hst hp
+
+/-- **adjust_wakes_all**: handling ONE window adjust (Broadcast) wakes EVERY parked writer of the channel and leaves
+    a positive window -/
+theorem adjust_wakes_all (hs : Setup W mp writes) {s s' : SysC}
+    (h : ReachableC unparkAll (SysC.init W mp writes) s) (hst : stepC unparkAll s .deliverAdj = some s') :
+    (∀ st ∈ s'.streams, st.parked = false) ∧ 0 < s'.win := by
+  have := invC_deliverAdj hs.w32 (invC_reachable hs h).1 hst
+  exact ⟨this.2.2.1, this.2.2.2⟩
+
+/-- **adjust_unblocks (every blocked writer)**: if the window is exhausted — so every writer with data is, or will
+    be, parked — and the reader has drained everything sent, then an adjust is in flight; handling it wakes every
+    writer, and EVERY writer that still has data can then put a packet on the wire. -/
+theorem adjust_unblocks_all (hs : Setup W mp writes) {s : SysC}
+    (h : ReachableC unparkAll (SysC.init W mp writes) s)
+    (hblocked : s.win = 0) (hwire : s.dataWire = []) (hd0 : s.unread0 = []) (hd1 : s.unread1 = []) :
+    ∃ s', stepC unparkAll s .deliverAdj = some s' ∧ 0 < s'.win ∧ (∀ st ∈ s'.streams, st.parked = false) ∧
+      ∀ k st, s'.streams[k]? = some st → st.toSend ≠ [] →
+        ∃ s'', stepC unparkAll s' (.send k) = some s'' ∧ s'.used < s''.used := by
+  obtain ⟨hi, hm⟩ := invC_reachable hs h
+  have hc := hi.credit
+  have ha := hi.recvAcct
+  obtain ⟨hp0, hp1⟩ := hi.pend
+  obtain ⟨hW, hM⟩ := hi.consts
+  simp only [hblocked, hwire, wireLen, List.map_nil, List.sum_nil, hd0, hd1, List.length_nil] at hc hp0 hp1
+  have hpos : 0 < s.adjWire.sum := by
+    rcases hi.drained hp0 hp1 with h0 | hnt
+    · have := hs.w2; omega
+    · simp only [thrM, hW, hM, not_or, Nat.not_lt] at hnt
+      have : 0 < W / 2 := by have := hs.w2; omega
+      omega
+  cases hadj : s.adjWire with
+  | nil => simp [hadj] at hpos
+  | cons a rest =>
+    have hex : ∃ s', stepC unparkAll s .deliverAdj = some s' := by
+      simp only [stepC, hadj]
+      split <;> exact ⟨_, rfl⟩
+    obtain ⟨s', hs'⟩ := hex
+    obtain ⟨hi', hm', hun, hwin⟩ := invC_deliverAdj hs.w32 hi hs'
+    refine ⟨s', hs', hwin, hun, ?_⟩
+    intro k st hk hne
+    have hnp := hun st (List.mem_of_getElem? hk)
+    have hlen : 0 < st.toSend.length := by
+      cases hts : st.toSend with
+      | nil => exact absurd hts hne
+      | cons a t => simp
+    have hmp' : 0 < s'.maxPayload := by rw [hm', hm]; exact hs.mp.1
+    have hw0 : ¬ s'.win = 0 := by omega
+    have hisE : st.toSend.isEmpty = false := by
+      cases hts : st.toSend with
+      | nil => exact absurd hts hne
+      | cons a t => rfl
+    simp only [stepC, hk, hisE, hnp, Bool.or_self, Bool.false_eq_true, if_false, nextPacket, reserve, hw0,
+      minPayloadSize]
+    refine ⟨_, rfl, ?_⟩
+    simp only
+    split <;> split <;> omega
+
+/-! ## the seeded bug: Cond.Signal instead of Cond.Broadcast in window.add -/
+
+/-- two writers; window 2; writer A: 3 bytes, writer B: 1 byte -/
+def signalInit : SysC := SysC.init 2 9 [(0, [1, 2, 3]), (1, [9])]
+
+/-- A takes the window, both park, the reader drains, the adjust arrives, Signal wakes only A, A finishes -/
+def signalRun : List ActC :=
+  [.send 0, .send 0, .send 1, .deliverData, .read 0 2, .deliverAdj, .send 0]
+
+def runC (wake : List Stream → List Stream) : SysC → List ActC → Option SysC
+  | s, [] => some s
+  | s, a :: as => match stepC wake s a with
+    | none => none
+    | some s' => runC wake s' as
+
+theorem reachableC_of_run {wake : List Stream → List Stream} {i s s' : SysC} (h : ReachableC wake i s)
+    (as : List ActC) (hr : runC wake s as = some s') : ReachableC wake i s' := by
+  induction as generalizing s with
+  | nil => simp [runC] at hr; subst hr; exact h
+  | cons a as ih =>
+    simp only [runC] at hr
+    cases hst : stepC wake s a with
+    | none => simp [hst] at hr
+    | some s1 => simp [hst] at hr; exact ih (.step a h hst) hr
+
+/-- **signal_loses_wakeup**: with Signal the state "writer B parked although the window is positive" is reachable,
+    and in it B can do nothing: its `send` step is disabled and nothing is in flight that could wake it — the
+    invariant `no_lost_wakeup` is exactly what Broadcast buys. -/
+theorem signal_loses_wakeup :
+    ∃ s, ReachableC unparkFirst signalInit s ∧ 0 < s.win ∧
+      (∃ st, s.streams[1]? = some st ∧ st.parked = true ∧ st.toSend ≠ []) ∧
+      stepC unparkFirst s (.send 1) = none ∧ s.adjWire = [] ∧ s.dataWire.length = 1 := by
+  have h : ∃ s, runC unparkFirst signalInit signalRun = some s ∧ 0 < s.win ∧
+      (∃ st, s.streams[1]? = some st ∧ st.parked = true ∧ st.toSend ≠ []) ∧
+      stepC unparkFirst s (.send 1) = none ∧ s.adjWire = [] ∧ s.dataWire.length = 1 := by
+    simp [runC, signalRun, signalInit, SysC.init, stepC, nextPacket, reserve, minPayloadSize, handleData, Rcv.init,
+      readExt, bufRead, adjustWindow, addWin, unparkFirst, channelMaxPacket, channelWindowSize]
+  obtain ⟨s, hr, rest⟩ := h
+  exact ⟨s, reachableC_of_run .init _ hr, rest⟩
+
+/-- the same schedule under Broadcast: B is awake and sends -/
+example : ∃ s, runC unparkAll signalInit (signalRun ++ [.send 1]) = some s ∧
+    (∀ st ∈ s.streams, st.parked = false ∧ st.toSend = []) := by
+  simp [runC, signalRun, signalInit, SysC.init, stepC, nextPacket, reserve, minPayloadSize, handleData, Rcv.init,
+    readExt, bufRead, adjustWindow, addWin, unparkAll, channelMaxPacket, channelWindowSize]
+
+
+
+/-! ## several channels: every channel of a connection run is a single-channel run -/
+
+def dwOf (i : Nat) (dw : List (Nat × Nat × Bytes')) : List (Nat × Bytes') := (dw.filter (fun p => p.1 = i)).map (·.2)
+def awOf (i : Nat) (aw : List (Nat × Nat)) : List Nat := (aw.filter (fun p => p.1 = i)).map (·.2)
+
+theorem proj_eq (m : SysM) (i : Nat) :
+    proj m i = (m.chans[i]?).map (fun c => { c with dataWire := dwOf i m.dataWire, adjWire := awOf i m.adjWire }) := rfl
+
+theorem dwOf_append (i : Nat) (a b : List (Nat × Nat × Bytes')) : dwOf i (a ++ b) = dwOf i a ++ dwOf i b := by
+  simp [dwOf]
+theorem awOf_append (i : Nat) (a b : List (Nat × Nat)) : awOf i (a ++ b) = awOf i a ++ awOf i b := by
+  simp [awOf]
+theorem dwOf_tag_same (i : Nat) (l : List (Nat × Bytes')) : dwOf i (l.map (fun p => (i, p))) = l := by
+  induction l with
+  | nil => rfl
+  | cons a t ih => simp [dwOf] at ih ⊢; exact ih
+theorem dwOf_tag_ne {i ch : Nat} (l : List (Nat × Bytes')) (h : ch ≠ i) : dwOf i (l.map (fun p => (ch, p))) = [] := by
+  induction l with
+  | nil => rfl
+  | cons a t ih => simp [dwOf, h] at ih ⊢; exact ih
+theorem awOf_tag_same (i : Nat) (l : List Nat) : awOf i (l.map (fun a => (i, a))) = l := by
+  induction l with
+  | nil => rfl
+  | cons a t ih => simp [awOf] at ih ⊢; exact ih
+theorem awOf_tag_ne {i ch : Nat} (l : List Nat) (h : ch ≠ i) : awOf i (l.map (fun a => (ch, a))) = [] := by
+  induction l with
+  | nil => rfl
+  | cons a t ih => simp [awOf, h] at ih ⊢
+
+/-- how one channel step changes the channel's two wires -/
+theorem stepC_wires {wake : List Stream → List Stream} {c c' : SysC} (a : ActC) (h : stepC wake c a = some c') :
+    match a with
+    | .send _ => c'.dataWire = c.dataWire ++ c'.dataWire.drop c.dataWire.length ∧ c'.adjWire = c.adjWire
+    | .deliverData => (∃ x, c.dataWire = x :: c'.dataWire) ∧ c'.adjWire = c.adjWire ++ c'.adjWire.drop c.adjWire.length
+    | .read _ _ => c'.dataWire = c.dataWire ∧ c'.adjWire = c.adjWire ++ c'.adjWire.drop c.adjWire.length
+    | .deliverAdj => c'.dataWire = c.dataWire ∧ ∃ x, c.adjWire = x :: c'.adjWire := by
+  cases a with
+  | send k =>
+    simp only [stepC] at h
+    split at h
+    · cases h
+    · split at h
+      · cases h
+      · split at h
+        · simp only [Option.some.injEq] at h; subst h; simp
+        · simp only [Option.some.injEq] at h; subst h; simp
+  | deliverData =>
+    simp only [stepC] at h
+    split at h
+    · cases h
+    · rename_i code p rest hw
+      split at h
+      · cases h; exact ⟨⟨_, hw⟩, by simp⟩
+      · cases h
+        refine ⟨⟨_, hw⟩, ?_⟩
+        simp only
+        split <;> simp
+  | read code n =>
+    simp only [stepC] at h
+    split at h
+    · cases h
+    · split at h <;> (try split at h) <;>
+        first
+          | (cases h; done)
+          | (cases h; refine ⟨rfl, ?_⟩; simp only; split <;> simp)
+  | deliverAdj =>
+    simp only [stepC] at h
+    split at h
+    · cases h
+    · rename_i a rest hw
+      split at h
+      · cases h; exact ⟨rfl, _, hw⟩
+      · cases h; exact ⟨rfl, _, hw⟩
+
+theorem proj_some {m : SysM} {i : Nat} {c : SysC} (h : proj m i = some c) :
+    ∃ c0, m.chans[i]? = some c0 ∧ c = { c0 with dataWire := dwOf i m.dataWire, adjWire := awOf i m.adjWire } := by
+  rw [proj_eq] at h
+  cases hc : m.chans[i]? with
+  | none => simp [hc] at h
+  | some c0 => simp [hc] at h; exact ⟨c0, rfl, h.symm⟩
+
+theorem getElem?_set_same' {α : Type} {l : List α} {i : Nat} {x y : α} (h : l[i]? = some y) : (l.set i x)[i]? = some x := by
+  rw [List.getElem?_set]
+  have := (List.getElem?_eq_some_iff.mp h).1
+  simp [this]
+
+theorem getElem?_set_ne' {α : Type} {l : List α} {i j : Nat} {x : α} (h : i ≠ j) : (l.set i x)[j]? = l[j]? := by
+  rw [List.getElem?_set]; simp [h]
+
+
+theorem proj_other {m : SysM} {ch i : Nat} (x : SysC) (dw : List (Nat × Nat × Bytes')) (aw : List (Nat × Nat))
+    (hne : ch ≠ i) (hd : dwOf i dw = dwOf i m.dataWire) (ha : awOf i aw = awOf i m.adjWire) :
+    proj { chans := m.chans.set ch x, dataWire := dw, adjWire := aw } i = proj m i := by
+  simp only [proj_eq, getElem?_set_ne' hne, hd, ha]
+
+theorem proj_same {m : SysM} {ch : Nat} {c0 : SysC} (hc0 : m.chans[ch]? = some c0) (c' : SysC)
+    (dw : List (Nat × Nat × Bytes')) (aw : List (Nat × Nat))
+    (hd : dwOf ch dw = c'.dataWire) (ha : awOf ch aw = c'.adjWire) :
+    proj { chans := m.chans.set ch { c' with dataWire := [], adjWire := [] }, dataWire := dw, adjWire := aw } ch
+      = some c' := by
+  simp only [proj_eq, getElem?_set_same' hc0, Option.map_some, hd, ha]
+
+theorem dwOf_cons_same (i : Nat) (x : Nat × Bytes') (rest : List (Nat × Nat × Bytes')) :
+    dwOf i ((i, x) :: rest) = x :: dwOf i rest := by simp [dwOf]
+theorem dwOf_cons_ne {i ch : Nat} (x : Nat × Bytes') (rest : List (Nat × Nat × Bytes')) (h : ch ≠ i) :
+    dwOf i ((ch, x) :: rest) = dwOf i rest := by simp [dwOf, h]
+theorem awOf_cons_same (i : Nat) (x : Nat) (rest : List (Nat × Nat)) :
+    awOf i ((i, x) :: rest) = x :: awOf i rest := by simp [awOf]
+theorem awOf_cons_ne {i ch : Nat} (x : Nat) (rest : List (Nat × Nat)) (h : ch ≠ i) :
+    awOf i ((ch, x) :: rest) = awOf i rest := by simp [awOf, h]
+
+/-- **projection**: a step of the connection is, for every channel, either invisible or a step of that channel's
+    own single-channel system -/
+theorem proj_step {wake : List Stream → List Stream} {m m' : SysM} (a : ActM) (h : stepM wake m a = some m')
+    (i : Nat) (ci : SysC) (hci : proj m i = some ci) :
+    proj m' i = some ci ∨ ∃ a' ci', stepC wake ci a' = some ci' ∧ proj m' i = some ci' := by
+  cases a with
+  | send ch k =>
+    simp only [stepM] at h
+    split at h
+    · cases h
+    · rename_i c hc
+      split at h
+      · cases h
+      · rename_i c' hst
+        cases h
+        obtain ⟨c0, hc0, hceq⟩ := proj_some hc
+        have hcdw : dwOf ch m.dataWire = c.dataWire := by rw [hceq]
+        have hcaw : awOf ch m.adjWire = c.adjWire := by rw [hceq]
+        have hw := stepC_wires (.send k) hst
+        simp only at hw
+        by_cases hi : ch = i
+        · subst hi
+          rw [hc] at hci; cases hci
+          right
+          refine ⟨.send k, c', hst, ?_⟩
+          apply proj_same hc0
+          · rw [dwOf_append, dwOf_tag_same]
+            rw [hcdw]; exact hw.1.symm
+          · rw [hcaw]; exact hw.2.symm
+        · left
+          rw [proj_other _ _ _ hi (by rw [dwOf_append, dwOf_tag_ne _ hi]; simp) rfl]
+          exact hci
+  | deliverData =>
+    simp only [stepM] at h
+    split at h
+    · cases h
+    · rename_i ch x rest hwire
+      split at h
+      · cases h
+      · rename_i c hc
+        split at h
+        · cases h
+        · rename_i c' hst
+          cases h
+          obtain ⟨c0, hc0, hceq⟩ := proj_some hc
+          have hcdw : dwOf ch m.dataWire = c.dataWire := by rw [hceq]
+          have hcaw : awOf ch m.adjWire = c.adjWire := by rw [hceq]
+          have hw := stepC_wires .deliverData hst
+          simp only at hw
+          have hcd : c.dataWire = x :: dwOf ch rest := by rw [hceq, hwire]; exact dwOf_cons_same ch x rest
+          by_cases hi : ch = i
+          · subst hi
+            rw [hc] at hci; cases hci
+            right
+            refine ⟨.deliverData, c', hst, ?_⟩
+            apply proj_same hc0
+            · obtain ⟨y, hy⟩ := hw.1
+              rw [hcd] at hy
+              exact (List.cons.inj hy).2
+            · rw [awOf_append, awOf_tag_same]
+              rw [hcaw]; exact hw.2.symm
+          · left
+            rw [proj_other _ _ _ hi (by rw [hwire, dwOf_cons_ne _ _ hi])
+              (by rw [awOf_append, awOf_tag_ne _ hi]; simp)]
+            exact hci
+  | read ch code n =>
+    simp only [stepM] at h
+    split at h
+    · cases h
+    · rename_i c hc
+      split at h
+      · cases h
+      · rename_i c' hst
+        cases h
+        obtain ⟨c0, hc0, hceq⟩ := proj_some hc
+        have hcdw : dwOf ch m.dataWire = c.dataWire := by rw [hceq]
+        have hcaw : awOf ch m.adjWire = c.adjWire := by rw [hceq]
+        have hw := stepC_wires (.read code n) hst
+        simp only at hw
+        by_cases hi : ch = i
+        · subst hi
+          rw [hc] at hci; cases hci
+          right
+          refine ⟨.read code n, c', hst, ?_⟩
+          apply proj_same hc0
+          · rw [hcdw]; exact hw.1.symm
+          · rw [awOf_append, awOf_tag_same]
+            rw [hcaw]; exact hw.2.symm
+        · left
+          rw [proj_other _ _ _ hi rfl (by rw [awOf_append, awOf_tag_ne _ hi]; simp)]
+          exact hci
+  | deliverAdj =>
+    simp only [stepM] at h
+    split at h
+    · cases h
+    · rename_i ch x rest hwire
+      split at h
+      · cases h
+      · rename_i c hc
+        split at h
+        · cases h
+        · rename_i c' hst
+          cases h
+          obtain ⟨c0, hc0, hceq⟩ := proj_some hc
+          have hcdw : dwOf ch m.dataWire = c.dataWire := by rw [hceq]
+          have hcaw : awOf ch m.adjWire = c.adjWire := by rw [hceq]
+          have hw := stepC_wires .deliverAdj hst
+          simp only at hw
+          have hca : c.adjWire = x :: awOf ch rest := by rw [hceq, hwire]; exact awOf_cons_same ch x rest
+          by_cases hi : ch = i
+          · subst hi
+            rw [hc] at hci; cases hci
+            right
+            refine ⟨.deliverAdj, c', hst, ?_⟩
+            apply proj_same hc0
+            · rw [hcdw]; exact hw.1.symm
+            · obtain ⟨y, hy⟩ := hw.2
+              rw [hca] at hy
+              exact (List.cons.inj hy).2
+          · left
+            rw [proj_other _ _ _ hi rfl (by rw [hwire, awOf_cons_ne _ _ hi])]
+            exact hci
+
+/-- every channel of a reachable connection state is a reachable state of its own single-channel system -/
+theorem reachableC_of_reachableM {wake : List Stream → List Stream} {m0 m : SysM} (h : ReachableM wake m0 m)
+    (i : Nat) (c0 : SysC) (hc0 : proj m0 i = some c0) :
+    ∃ c, proj m i = some c ∧ ReachableC wake c0 c := by
+  induction h with
+  | init => exact ⟨c0, hc0, .init⟩
+  | step a _ hst ih =>
+    obtain ⟨c, hc, hr⟩ := ih
+    rcases proj_step a hst i c hc with h1 | ⟨a', c', hs', h1⟩
+    · exact ⟨c, h1, hr⟩
+    · exact ⟨c', h1, .step a' hr hs'⟩
+
+theorem proj_init (W : Nat) (chs : List (Nat × List (Nat × Bytes'))) (i : Nat) (mp : Nat) (ws : List (Nat × Bytes'))
+    (h : chs[i]? = some (mp, ws)) : proj (SysM.init W chs) i = some (SysC.init W mp ws) := by
+  simp [proj, SysM.init, h, SysC.init]
+
+
+/-- set-up of a connection: every channel satisfies `Setup` -/
+def SetupM (W : Nat) (chs : List (Nat × List (Nat × Bytes'))) : Prop :=
+  ∀ c ∈ chs, Setup W c.1 c.2
+
+/-- each channel of a connection run, seen through `proj`, is a run of the single-channel system -/
+theorem channel_run_of_connection_run {W : Nat} {chs : List (Nat × List (Nat × Bytes'))} {m : SysM}
+    (h : ReachableM unparkAll (SysM.init W chs) m) (i mp : Nat) (ws : List (Nat × Bytes'))
+    (hi : chs[i]? = some (mp, ws)) :
+    ∃ c, proj m i = some c ∧ ReachableC unparkAll (SysC.init W mp ws) c :=
+  reachableC_of_reachableM h i _ (proj_init W chs i mp ws hi)
+
+/-- credit conservation per channel on the SHARED wires: only the channel's own packets / adjusts count -/
+theorem credit_conservation_conn {W : Nat} {chs : List (Nat × List (Nat × Bytes'))} (hs : SetupM W chs) {m : SysM}
+    (h : ReachableM unparkAll (SysM.init W chs) m) (i mp : Nat) (ws : List (Nat × Bytes'))
+    (hi : chs[i]? = some (mp, ws)) :
+    ∃ c, m.chans[i]? = some c ∧
+      c.win + wireLen (dwOf i m.dataWire) + (awOf i m.adjWire).sum = c.rcv.myWindow ∧
+      c.rcv.myWindow + c.rcv.myConsumed + c.unread0.length + c.unread1.length = W ∧
+      c.complained = false ∧ c.overflowed = false ∧
+      (∀ st ∈ c.streams, st.parked = true → c.win = 0) := by
+  obtain ⟨c, hc, hr⟩ := channel_run_of_connection_run h i mp ws hi
+  have hset := hs _ (List.mem_of_getElem? hi)
+  obtain ⟨c0, hc0, hceq⟩ := proj_some hc
+  have h1 := credit_conservation_multi hset hr
+  have h2 := receiver_never_complains_multi hset hr
+  have h3 := fun st hst hp => no_lost_wakeup hset hr st hst hp
+  subst hceq
+  exact ⟨c0, hc0, h1.1, h1.2, h2.1, h2.2.1, h3⟩
+
+/-- a data packet put on the shared wire by channel `ch` fits THAT channel's credit and max packet, whatever the
+    other channels are doing -/
+theorem never_exceeds_window_conn {W : Nat} {chs : List (Nat × List (Nat × Bytes'))} (hs : SetupM W chs) {m m' : SysM}
+    (h : ReachableM unparkAll (SysM.init W chs) m) (ch k mp : Nat) (ws : List (Nat × Bytes'))
+    (hi : chs[ch]? = some (mp, ws)) (hst : stepM unparkAll m (.send ch k) = some m') :
+    ∃ c c', proj m ch = some c ∧ proj m' ch = some c' ∧
+      (c'.used ≠ c.used → ∃ code p, m'.dataWire = m.dataWire ++ [(ch, code, p)] ∧ 0 < p.length ∧
+        p.length ≤ c.granted - c.used ∧ p.length ≤ mp ∧ c'.used ≤ c'.granted) := by
+  obtain ⟨c, hc, hr⟩ := channel_run_of_connection_run h ch mp ws hi
+  have hset := hs _ (List.mem_of_getElem? hi)
+  simp only [stepM, hc] at hst
+  split at hst
+  · cases hst
+  · rename_i c' hstc
+    cases hst
+    obtain ⟨c0, hc0, hceq⟩ := proj_some hc
+    have hw := stepC_wires (.send k) hstc
+    simp only at hw
+    have hproj' : proj { m with chans := m.chans.set ch { c' with dataWire := [], adjWire := [] },
+        dataWire := m.dataWire ++ (c'.dataWire.drop c.dataWire.length).map (fun p => (ch, p)) } ch = some c' := by
+      apply proj_same hc0
+      · rw [dwOf_append, dwOf_tag_same]
+        have : dwOf ch m.dataWire = c.dataWire := by rw [hceq]
+        rw [this]; exact hw.1.symm
+      · have : awOf ch m.adjWire = c.adjWire := by rw [hceq]
+        rw [this]; exact hw.2.symm
+    refine ⟨c, c', rfl, hproj', ?_⟩
+    intro hused
+    obtain ⟨code, p, hdw, hp0, hp1, hp2, _, hp4⟩ := never_exceeds_window_multi hset k hr hstc hused
+    refine ⟨code, p, ?_, hp0, hp1, hp2, hp4⟩
+    simp only [hdw, List.drop_left, List.map_cons, List.map_nil]
+
+/-- per-stream integrity on a shared connection -/
+theorem stream_integrity_conn {W : Nat} {chs : List (Nat × List (Nat × Bytes'))} (hs : SetupM W chs) {m : SysM}
+    (h : ReachableM unparkAll (SysM.init W chs) m) (i mp : Nat) (ws : List (Nat × Bytes'))
+    (hi : chs[i]? = some (mp, ws)) :
+    ∃ c, m.chans[i]? = some c ∧ ∀ st ∈ c.streams,
+      (st.code = 0 → c.read0 ++ c.unread0 ++ (wireOf 0 (dwOf i m.dataWire)).flatten ++ st.toSend = st.data ∧
+        c.read0 <+: st.data) ∧
+      (st.code = 1 → c.read1 ++ c.unread1 ++ (wireOf 1 (dwOf i m.dataWire)).flatten ++ st.toSend = st.data ∧
+        c.read1 <+: st.data) := by
+  obtain ⟨c, hc, hr⟩ := channel_run_of_connection_run h i mp ws hi
+  have hset := hs _ (List.mem_of_getElem? hi)
+  obtain ⟨c0, hc0, hceq⟩ := proj_some hc
+  have h1 := fun st hst => stream_integrity_multi hset hr st hst
+  subst hceq
+  exact ⟨c0, hc0, h1⟩
+
 end XC.C35
